@@ -751,6 +751,28 @@ def conditional_rule(run, ctx):
         G = None
         if isref and isref[-1][1]:
             G = re.match(r"^Expr::Backref\((\w+)\)$", isref[-1][0]).group(1)
+        # "nothing follows the condition" is decided by comparing two positions; comments and free-spacing blanks are
+        # not a branch, so either both positions are taken after skipping trivia or neither is (otherwise
+        # `(?(1)(?#c))` / `(?x)(?(1) )` parse differently from `(?(1))`)
+        if not has_bar:
+            for i_, ev in enumerate(p.events):
+                mt = re.match(r"^\((\w+) == (.*)\)$", ev.a or "") if ev.kind == "cond" else None
+                if not mt or "next" not in (ev.a or "") and "check_for_close_paren" not in sm.conds.__repr__():
+                    continue
+                defs = {}
+                for e2 in p.events[:i_]:
+                    if e2.kind == "let" and re.match(r"^(mut )?\w+$", e2.a or ""):
+                        defs[e2.a.replace("mut ", "")] = e2.b or ""
+                    elif e2.kind == "assign" and e2.b == "=" and re.match(r"^\w+$", e2.a or ""):
+                        defs[e2.a] = e2.c or ""
+                sides = [mt.group(1), mt.group(2)]
+                if not all(re.match(r"^\w+$", x_) is None or x_ in defs for x_ in sides):
+                    continue
+                triv = ["optional_whitespace(" in (x_ + " " + defs.get(x_, "")) for x_ in sides]
+                posish = all(("optional_whitespace(" in (x_ + defs.get(x_, "")) or "check_for_close_paren(" in (x_ + defs.get(x_, "")) or "parse_branch(" in defs.get(x_, "")) for x_ in sides)
+                if posish and triv[0] != triv[1]:
+                    run.violation(fam, label, "trivia-asymmetric", w, "parse_conditional decides `no branch follows the condition` by comparing %s (taken %s skipping comments / free-spacing blanks) with %s (taken %s): a comment or a blank after the condition turns the bare group test `(?(N))`, which fails for an unset group, into a conditional with two empty branches, which always continues" % (sides[0], "after" if triv[0] else "without", sides[1], "after" if triv[1] else "without"))
+                    break
         m = H.pat_match("Ok(({*a},Expr::BackrefExistsCondition({g})))", val)
         if m:
             # the bare test: only when nothing at all follows the condition
